@@ -1,13 +1,14 @@
 (* Property C15 -- relativisation round-trips through resolution.  Statements only.
-   The FULL statement (for all pairs) is false of the faithful model: refuted below by witnesses, one
-   per recorded class (these are the known findings of known_findings.json).  What is claimed is the
-   round trip on the class described in DESIGN.md (a dot-free with an absolute path, authority on both
-   sides or neither, no inner empty segment, a not an ancestor-without-slash of b's directory); on that
-   class it is checked by the correspondence run and the implementation's own == on every generated
-   pair: partial (no unbounded theorem yet). *)
+   The FULL statement (for all pairs) is false of the faithful model: refuted below (the recorded classes are the
+   known findings of known_findings.json).  PROVED, for all inputs of the class: the round trip when a and b have
+   the same scheme and authority, absolute dot-free paths without an empty segment before the last one and a
+   literal common directory prefix (C15_round_trip_partial), and when they differ in scheme or in authority
+   (C15_other_scheme, C15_other_authority).  Outside these hypotheses (percent-encoded variants of the common
+   prefix, the two "./"-shield shapes, authority on one side only) the property is carried by the correspondence run
+   and the implementation's own == on every generated pair. *)
 From Coq Require Import List NArith Bool Arith.
 Import ListNotations.
-Require Import V.Regex V.Parse V.PathSpec V.Splice V.Setters V.Reference V.Cmp.
+Require Import V.Regex V.Parse V.ParseProofs V.PathSpec V.Splice V.Setters V.Push V.Reference V.Cmp V.ResolveProofs4 V.RelProofs.
 Local Open Scope nat_scope.
 
 Definition round_trip (a b : str) : option bool :=
@@ -19,6 +20,56 @@ Definition b1 := [104;116;116;112;58;47;47;97;47;98;47;99;47;100]%N.
 Theorem C15_full_statement_refuted : exists a b, round_trip a b = Some false.
 Proof. exists a1, b1. vm_compute. reflexivity. Qed.
 Print Assumptions C15_full_statement_refuted.
+
+(* THE ROUND TRIP on the claimed class.  a = compose pa, b = compose pb, both with scheme s and the same authority
+   (whose == with itself is defined: every valid authority), absolute paths whose segments are free of "." and ".."
+   and non-empty except possibly the last; `common` is the literal common prefix of the segments of a's path and of
+   b's directory, ss / bs what remains (strip_common stops there: C15_strip_common_literal), ss non-empty (else a is
+   an ancestor of b's directory: recorded class K_ancestor); the first remaining segment of a is non-empty and without
+   ':' when b's directory is exhausted (else relative_to writes a "./" shield); and the query of b is not inherited
+   (recorded class K_query_inherit).  Then the index-level model of relative_to returns -- no panic -- a well-formed
+   relative reference pr, and the index-level model of resolve maps it back to a, LITERALLY. *)
+Theorem C15_round_trip_partial : forall (pa pb : parts) (s : str) (common ss bs : list str),
+  wf_parts pa -> wf_parts pb -> p_scheme pa = Some s -> p_scheme pb = Some s ->
+  p_authority pa = p_authority pb -> (forall x, p_authority pa = Some x -> eq_authority x x = Some true) ->
+  is_abs (p_path pa) = true -> is_abs (p_path pb) = true ->
+  segs (p_path pa) = common ++ ss -> removelast (segs (p_path pb)) = common ++ bs ->
+  plain (segs (p_path pa)) -> plain (segs (p_path pb)) -> no_empty_but_last (p_path pa) -> no_empty_but_last (p_path pb) ->
+  strip_common (common ++ ss) (common ++ bs) = Some (ss, bs) ->
+  ss <> [] ->
+  (bs = [] -> match ss with x :: _ => x <> [] /\ colon_first x = false | [] => False end) ->
+  (p_query pa = None -> p_fragment pa <> None -> p_path pa = p_path pb -> p_query pb = None) ->
+  exists pr, wf_parts pr /\ relative_to (compose pa) (compose pb) = Some (compose pr) /\ resolve (compose pr) (compose pb) = Some (compose pa).
+Proof. exact round_trip_partial. Qed.
+Print Assumptions C15_round_trip_partial.
+
+(* the strip_common hypothesis holds whenever the common prefix is literal and decodable and the next segments
+   differ after percent-decoding *)
+Theorem C15_strip_common_literal : forall common ss bs, Forall (fun x => dec x <> None) common ->
+  match ss, bs with x :: _, y :: _ => eq_key pct_key x y = Some false | _, _ => True end ->
+  strip_common (common ++ ss) (common ++ bs) = Some (ss, bs).
+Proof. exact strip_common_literal. Qed.
+Print Assumptions C15_strip_common_literal.
+
+(* different schemes, or the same scheme and different authorities: the result is a itself, and a (dot-free path,
+   no empty segment before the last) resolves to itself against any b *)
+Theorem C15_other_scheme : forall pa pb sa sb, wf_parts pa -> wf_parts pb -> p_scheme pa = Some sa -> p_scheme pb = Some sb ->
+  plain (segs (p_path pa)) -> no_empty_but_last (p_path pa) -> list_eqb sa sb = false ->
+  relative_to (compose pa) (compose pb) = Some (compose pa) /\ resolve (compose pa) (compose pb) = Some (compose pa).
+Proof. exact other_scheme. Qed.
+Print Assumptions C15_other_scheme.
+Theorem C15_other_authority : forall pa pb sa sb, wf_parts pa -> wf_parts pb -> p_scheme pa = Some sa -> p_scheme pb = Some sb ->
+  plain (segs (p_path pa)) -> no_empty_but_last (p_path pa) -> forall x y, sa = sb -> p_authority pa = Some x -> p_authority pb = Some y ->
+  eq_authority x y = Some false ->
+  relative_to (compose pa) (compose pb) = Some (compose pa) /\ resolve (compose pa) (compose pb) = Some (compose pa).
+Proof. exact other_authority. Qed.
+Print Assumptions C15_other_authority.
+
+(* the hypotheses of C15_round_trip_partial are satisfiable: h://h/a/b/c?q relative to h://h/a/x *)
+Theorem C15_round_trip_instance :
+  exists pr, wf_parts pr /\ relative_to (compose ex_a) (compose ex_b) = Some (compose pr) /\ resolve (compose pr) (compose ex_b) = Some (compose ex_a).
+Proof. exact round_trip_instance. Qed.
+Print Assumptions C15_round_trip_instance.
 
 (* the model never panics on these and the ordinary case holds: http://a/b/c/d relative to http://a/b/x -> c/d *)
 Example C15_example :
